@@ -401,13 +401,14 @@ func (a anchors) Run(ctx context.Context) error              { <-ctx.Done(); ret
 // ---- world
 
 type world struct {
-	idx        int
-	mode       string
-	desc       string
-	steps      []string
-	viol       atomic.Bool
-	chainShape string
-	is         *issuer
+	idx           int
+	mode          string
+	desc          string
+	steps         []string
+	viol          atomic.Bool
+	chainShape    string
+	siblingTarget string
+	is            *issuer
 }
 
 func (w *world) step(s string) { w.steps = append(w.steps, s); rec.Progress() }
@@ -461,7 +462,7 @@ func TestCheck(t *testing.T) {
 	defer rec.Close()
 	initCA()
 	rec.Note("rule", "a case is one scenario against the real SPIFFE object in a synctest bubble with a scripted issuer signing real SVIDs: (order) each of the six first-call orders of Run / Ready / GetX509SVID from separate goroutines x initial fetch succeeding or failing x consumer additionally parked inside GetX509SVID while it holds the read lock; (renewal) a seeded script of 3-8 issuer outcomes (validity windows from 2 s to 30 days, already past half-life, expired, not yet valid; failures: an issuer error, an empty answer, or a signed chain without a usable SPIFFE ID) with the virtual clock advanced in seeded steps of seconds to hours, optionally writing the identity to a directory and rotating the trust anchors. Non-trivial = the issuer received at least one request; distinct = distinct scenario description.")
-	rec.Note("require", []string{"order.get_first", "files.chain_shape.plain", "files.chain_shape.with-root", "files.chain_shape.rollover", "files.chain_shape.same-dn-leaf", "order.ready_first", "order.run_first", "order.initial_fetch_failed", "order.second_run_refused", "order.run_context_ended_during_initial_fetch", "order.consumer_parked_with_rlock", "renewal.requests", "renewal.on_time", "renewal.retry_after_failure", "renewal.served_latest_checked", "renewal.fresh_keys_checked", "renewal.unusable_answer_scripted", "renewal.get_during_inflight_renewal", "renewal.reader_parked_across_renewal", "renewal.consumer_get_at_publication", "files.sets_checked", "anchors.source_uses_kit_pem_encoder", "files.undisturbed_after_failed_fetch", "anchors.asked_with_a_live_context", "issuer.error_returned_with_a_usable_chain", "issuer.error_is_a_wrapped_deadline_exceeded", "issuer.error_is_a_wrapped_canceled", "renewal.get_while_component_logs", "order.initial_fetch_failed_at_publication.identity-dir-unwritable", "order.initial_fetch_failed_at_publication.anchors-unavailable"})
+	rec.Note("require", []string{"order.get_first", "files.chain_shape.plain", "files.chain_shape.with-root", "files.chain_shape.rollover", "files.chain_shape.same-dn-leaf", "order.ready_first", "order.run_first", "order.initial_fetch_failed", "order.second_run_refused", "order.run_context_ended_during_initial_fetch", "order.consumer_parked_with_rlock", "renewal.requests", "renewal.on_time", "renewal.retry_after_failure", "renewal.served_latest_checked", "renewal.fresh_keys_checked", "renewal.unusable_answer_scripted", "renewal.get_during_inflight_renewal", "renewal.reader_parked_across_renewal", "renewal.consumer_get_at_publication", "files.sets_checked", "anchors.source_uses_kit_pem_encoder", "files.undisturbed_after_failed_fetch", "sibling.file_set_checked_after_a_publication_of_this_instance", "anchors.asked_with_a_live_context", "issuer.error_returned_with_a_usable_chain", "issuer.error_is_a_wrapped_deadline_exceeded", "issuer.error_is_a_wrapped_canceled", "renewal.get_while_component_logs", "order.initial_fetch_failed_at_publication.identity-dir-unwritable", "order.initial_fetch_failed_at_publication.anchors-unavailable"})
 	ps := plans()
 	rec.Planned(len(ps))
 	for idx, pl := range ps {
@@ -824,6 +825,30 @@ func runRenewal(t *testing.T, idx int, rng *mon.RNG) {
 				w.violation("renewal/get-blocked-while-component-logs", fmt.Sprintf("GetX509SVID does not return while the component is inside its log sink reporting %q (every goroutine parked; mutex-blocked: %d %v): a slow sink stalls every consumer, and a sink that uses the identity deadlocks the rotation", msg, q.MutexBlocked, q.MutexFrames))
 			}
 		}
+		// a second, independent SPIFFE instance publishes its identity next to this one - same parent directory,
+		// a target whose name ends in this one's ("sentry-identity" beside "identity"). It fetches once (30 days of
+		// validity, so it does not renew during the case); whatever the first instance does, the sibling's
+		// file set stays published.
+		var siblingTarget string
+		if withDir && idx%4 < 2 {
+			siblingTarget = filepath.Join(filepath.Dir(target), "sentry-identity")
+			sis := &issuer{script: []outcome{{Win: windows[4]}}, withDir: true, renewalReturned: make(chan bool, 16)}
+			ss := newSpiffe(sis, &siblingTarget)
+			sctx, scancel := context.WithCancel(context.Background())
+			sdone := make(chan error, 1)
+			go func() { sdone <- ss.Run(sctx) }()
+			synctest.Wait()
+			if err := ss.Ready(sctx); err != nil {
+				w.violation("sibling/ready-error", err.Error())
+			}
+			defer func() {
+				sis.closing.Store(true)
+				scancel()
+				<-sdone
+			}()
+			rec.Count("sibling.instance_published_next_to_this_one", 1)
+		}
+		w.siblingTarget = siblingTarget
 		s := newSpiffe(is, dp)
 		src := s.SVIDSource()
 		srcForLog = src
@@ -977,6 +1002,7 @@ func runRenewal(t *testing.T, idx int, rng *mon.RNG) {
 						}
 					}
 					checkFiles(w, target, want)
+					checkSibling(w)
 					if !reqs[judged-1].ok && !w.viol.Load() {
 						rec.Count("files.undisturbed_after_failed_fetch", 1)
 					}
@@ -1214,4 +1240,26 @@ func checkFiles(w *world, target string, want *request) {
 		return
 	}
 	rec.Count("files.sets_checked", 1)
+}
+
+// checkSibling: the identity another SPIFFE instance published beside this one is still there, complete.
+func checkSibling(w *world) {
+	if w.siblingTarget == "" {
+		return
+	}
+	ents, err := os.ReadDir(w.siblingTarget)
+	if err != nil {
+		w.violation("sibling/file-set-gone", fmt.Sprintf("after this instance published its identity, the file set that an independent instance had published beside it (%s) cannot be read any more: %v", filepath.Base(w.siblingTarget), err))
+		return
+	}
+	var names []string
+	for _, e := range ents {
+		names = append(names, e.Name())
+	}
+	sort.Strings(names)
+	if strings.Join(names, ",") != "ca.pem,cert.pem,key.pem" {
+		w.violation("sibling/wrong-file-set", fmt.Sprintf("the sibling instance's identity directory holds %v", names))
+		return
+	}
+	rec.Count("sibling.file_set_checked_after_a_publication_of_this_instance", 1)
 }
